@@ -389,7 +389,9 @@ def run_check(prop_id, tier, seed):
 
 
 def write_evidence(mod, prop_id, tier, seed, total, per_part, wall, findings):
-    os.makedirs(os.path.join(VERIF, "evidence"), exist_ok=True)
+    # (sensitivity runs against a mutated copy of the repository write their evidence elsewhere)
+    evdir = os.environ.get("VERIF_EVIDENCE_DIR") or os.path.join(VERIF, "evidence")
+    os.makedirs(evdir, exist_ok=True)
     rule = " || ".join("[%s] %s" % (p.name, p.rule) for p in mod.PARTS)
     cov = {
         "evaluations": total.evaluations,
@@ -418,6 +420,6 @@ def write_evidence(mod, prop_id, tier, seed, total, per_part, wall, findings):
         "wall_s": round(wall, 2),
         "violations": len(total.violations),
     }
-    path = os.path.join(VERIF, "evidence", prop_id + ".json")
+    path = os.path.join(evdir, prop_id + ".json")
     with open(path, "w") as f:
         json.dump(ev, f, indent=1, default=S._default)
